@@ -21,7 +21,7 @@ def run():
         chk.add_mc("CtxMC", r)
         exe = vlib.compile_c(build, os.path.join(vlib.VERIF, "harness", "c", "ctxpar.c"), sc.file("ctxpar"), extra=["-lpthread", "-Wno-format-extra-args"])
         configs = []
-        reps = 12 if chk.thorough else 3
+        reps = 30 if chk.thorough else 3
         for n in ([2, 3, 4, 8, 16] if chk.thorough else [2, 4, 8]):
             for rep in range(reps):
                 configs.append((n, 3 if chk.thorough else 2, (rep + n) % 2, rep))
